@@ -159,7 +159,7 @@ let check_line (line : string) : unit =
         List.iter (fun r -> if r.k = 'F' && List.mem r.tag tl_all && r.thr <> "c" then
                       oracle ((if List.mem r.tag top_tl then "tl_on_caller:" else "inner_tl_on_caller:") ^ name) 0) tr;
         (* per level *)
-        let check_level (lt : int) (prog : reg list) (seg : rev list) (kind : char) =
+        let check_level ?(faulty = faulty) (lt : int) (prog : reg list) (seg : rev list) (kind : char) =
           let tags = level_tags prog in
           let seg_e = evs (List.filter (fun r -> List.mem r.tag tags) seg) in
           (match List.assoc lt model_lay with
@@ -173,13 +173,51 @@ let check_line (line : string) : unit =
                    | 't' -> seg_e = group_trace tl
                    | _ -> false in
                  if not ok then disagree ("accept:" ^ name) lt "in-trace-set" "not-accepted"
+               end else begin
+                 (* C14: the recorded faulty trace must lie in the faulty trace set of Fault.v.  A batch of this
+                    level whose window contains the panic of a descendant has itself panicked: its (unlogged)
+                    panic is made explicit *)
+                 let marked = ref [] in
+                 let opened : (int, bool ref) Hashtbl.t = Hashtbl.create 8 in
+                 let out = ref [] in
+                 List.iter (fun r ->
+                     if List.mem r.tag tags then begin
+                       (match r.k with
+                        | 'F' -> if Hashtbl.mem subtree r.tag then Hashtbl.replace opened r.tag (ref false);
+                            out := FF (n_of_int r.tag) :: !out
+                        | 'P' -> out := FP (n_of_int r.tag) :: !out
+                        | 'R' ->
+                            (match Hashtbl.find_opt opened r.tag with
+                             | Some m -> if !m then (marked := r.tag :: !marked; out := FP (n_of_int r.tag) :: !out);
+                                 Hashtbl.remove opened r.tag
+                             | None -> ());
+                            out := FR (n_of_int r.tag) :: !out
+                        | _ -> ())
+                     end else if r.k = 'P' then
+                       Hashtbl.iter (fun b m -> match Hashtbl.find_opt subtree b with
+                           | Some sub -> if List.mem r.tag sub then m := true | None -> ()) opened) seg;
+                 let seg_f = List.rev !out in
+                 let fl = List.map n_of_int (List.filter (fun t -> List.mem t tags) faults @ !marked) in
+                 let ok = match kind with
+                   | 'd' -> faccept_disp fl lay tl seg_f
+                   | 'p' -> faccept_disp fl lay [] seg_f
+                   | 's' -> seg_f = fst (ftrace_seq fl lay [])
+                   | 't' -> seg_f = fst (fgroup fl tl)
+                   | _ -> false in
+                 bump "faulty-traces-checked";
+                 if List.exists (fun e -> match e with FP _ -> true | _ -> false) seg_f then bump "faulty-traces-with-panic";
+                 if not ok then disagree ("faccept:" ^ name) lt "in-faulty-trace-set" "not-accepted"
                end);
           (* C02/C03: predecessors finished *)
           if not (o_preds_done (must_precede prog) seg_e) then oracle ("preds_done:" ^ name) lt;
           if not faulty then begin
             let stags = sys_tags prog and ttags = tl_tags prog in
             let expect = match kind with 'd' -> stags @ ttags | 'p' | 's' -> stags | _ -> ttags in
-            if not (o_once expect seg_e) then oracle ("once:" ^ name) lt;
+            if not (o_once expect seg_e) then begin
+              oracle ("once:" ^ name) lt;
+              (* C14: the dispatch following a caught panic must run every system exactly once *)
+              if name = "TN" then oracle "next_dispatch" lt
+            end;
             if kind = 'd' && not (o_tl_last ttags seg_e) then oracle ("tl_last:" ^ name) lt
           end in
         check_level 0 top_prog tr call;
@@ -190,7 +228,12 @@ let check_line (line : string) : unit =
               List.iter (fun r ->
                   if r.k = 'D' && r.tag = lt then cur := Some []
                   else if r.k = 'E' && r.tag = lt then begin
-                    (match !cur with Some acc -> check_level lt prog (List.rev acc) 'd' | None -> ());
+                    (* a completed inner dispatch: nothing propagated out of it *)
+                    (match !cur with Some acc -> check_level ~faulty:false lt prog (List.rev acc) 'd' | None -> ());
+                    cur := None
+                  end else if r.k = 'R' && r.tag = lt then begin
+                    (* the batch ended inside an inner dispatch: that dispatch was cut by a panic *)
+                    (match !cur with Some acc -> check_level ~faulty:true lt prog (List.rev acc) 'd' | None -> ());
                     cur := None
                   end else match !cur with Some acc -> cur := Some (r :: acc) | None -> ()) tr
             end) lvls in
@@ -231,7 +274,8 @@ let check_line (line : string) : unit =
           end) calls;
       if faulty then begin
         let tr = parse_trace (get "TN") in
-        check_trace "TN" 'd' tr false;
+        let nk = (let v = param "next" in if v = "" then 'd' else v.[0]) in
+        check_trace "TN" nk tr false;
         if get "PN" <> "-" then oracle "next_dispatch" 0;
         let probe = get "probeN" in
         if probe <> "-" && String.exists (fun c -> c <> '0') probe then oracle "probe_free" 0
@@ -264,6 +308,13 @@ let check_line (line : string) : unit =
         let want = List.sort compare (List.filter_map (fun r -> match r with
             | RSys (t, _, _, _, _, _) -> Some (int_of_n t) | RTL t -> Some (int_of_n t) | _ -> None) every) in
         got = want in
+      (* exact visit order against the model (Visit.v): stages, groups, members, then thread-locals, batches recursively *)
+      let order field k = List.filter_map (fun r -> if r.k = k then Some r.tag else None) (parse_trace (get field)) in
+      let model_order = List.map int_of_n (visits regs) in
+      if order "setup" 'S' <> model_order then
+        disagree "setup_order" 0 (tok_of_ints model_order) (tok_of_ints (order "setup" 'S'));
+      if order "dispose" 'X' <> model_order then
+        disagree "dispose_order" 0 (tok_of_ints model_order) (tok_of_ints (order "dispose" 'X'));
       if not (visit "setup" 'S') then oracle "setup_visits" 0;
       if get "setupkeeps" <> "1" || get "setupok" <> "1" then oracle "setup_keeps" 0;
       if not (visit "dispose" 'X') || get "disposeok" <> "1" then oracle "dispose_visits" 0;
